@@ -31,6 +31,10 @@ TreeClauses(e) ==
            /\ (ns[j].parent = -1) = (ns[j].plen = ns[1].plen /\ j = 1)
            /\ ns[j].parent >= 0 => (ns[ns[j].parent + 1].plen = ns[j].plen - 1 /\ ns[j].pstr_prefix_ok)>>,
      <<"FlatAndNestedSameNodes", ok => e.nested_same>>,
+     <<"TypeListsHoldEveryTypeLikeLeaf", ok => \A j \in 1..Len(ns) : ns[j].ri > 0 =>
+           \* (at least: a node may also list what the paths of the rules below it imply about its container type)
+           /\ ns[j].ntype >= TypeEntries(e.rules[ns[j].ri].cond, FALSE)
+           /\ ns[j].nkeytype >= TypeEntries(e.rules[ns[j].ri].cond, TRUE)>>,
      \* a rule that came from a spec carries (and the tree shows: RuleNodeCarriesConditionAndDoc) its doc block as the
      \* grammar normalises it: description and examples as lists of stripped strings
      <<"RuleDocIsTheNormalisedDocBlock", \A r \in 1..Len(e.docspecs) : e.docspecs[r].has =>
@@ -59,9 +63,12 @@ HtmlClauses(e) ==
      <<"SchemaTextShown", (ok /\ e.token_ok) => e.texts_ok>>,
      <<"SchemaTextOnlyEscaped", (ok /\ e.token_ok) => e.escaped_ok>> >>
 Clauses(e) == CASE e.op = "tree" -> TreeClauses(e) [] e.op = "html" -> HtmlClauses(e)
+\* the type lists of a node are named by no listed property (C20 speaks of rules, parents, forms, required flags and the
+\* HTML): that clause is judged only by `make extras` (VERIF_PROP = "EXTRA")
+Owned(name) == (name = "TypeListsHoldEveryTypeLikeLeaf") <=> (IOEnv.VERIF_PROP = "EXTRA")
 Check == LET e == Events[i]
              cl == Clauses(e)
-             bad == {j \in 1..Len(cl) : ~cl[j][2]}
+             bad == {j \in 1..Len(cl) : Owned(cl[j][1]) /\ ~cl[j][2]}
          IN \/ bad = {}
             \/ LET j == CHOOSE j \in bad : \A m \in bad : j <= m
                IN PrintT(<<"MISMATCH", e.id, cl[j][1]>>) /\ FALSE
